@@ -397,6 +397,11 @@ def job_docs(kind, arg):
                     assert len((head + 'a' * pad).encode('utf8')) == boundary - o
                     check_document(text, acc, 'bigfiles')
                     last = text[:60] + '...'
+    elif kind == 'edits':
+        mc, bi = arg
+        for text in DS.single_edits(DS.edit_bases(mc)[bi]):
+            check_document(text, acc, 'edits')
+            last = text
     elif kind == 'pairs':
         shard, nshards, quick = arg
         kept = 0
@@ -442,6 +447,8 @@ def run(ctx):
               [job_docs.job('docstrings', (d, delim)) for d in (0, 1, 2, 4, 6) for delim in ('"""', '```')])
     ctx.level('files with a multi-byte character astride a power-of-two byte offset',
               [job_docs.job('bigfiles', (b,)) for b in ctx.pick((1024, 4096, 8192, 16384, 65536), (512, 1024, 2048, 4096, 8192, 16384, 32768, 65536, 131072, 262144, 1048576))])
+    mc = ctx.pick(100, 250)
+    ctx.level('single edits of corpus and base documents <= %d characters' % mc, [job_docs.job('edits', (mc, bi)) for bi in range(len(DS.edit_bases(mc)))])
     ctx.level('pairs of feature modules', [job_docs.job('pairs', (s, 64, ctx.quick)) for s in range(64)])
     n = ctx.pick(4, 6)
     ctx.level('structure documents N<=%d' % n, [job_docs.job('structure', (n, s, 192)) for s in range(192)])
